@@ -1222,6 +1222,69 @@ Qed.
 
 End Total.
 
+Lemma report_produced_of_total T : tables_ok T = true -> append_ok T -> routing_total T = true -> forall i acs,
+  computed_all i (rp_assets i) = Ok acs ->
+  (exists m, legend_method (rp_sched i) = Ok m) ->
+  (forall ac, In ac acs -> exists items, mk_items T (asset_sources i ac) = Ok items) ->
+  (forall ac g, In ac acs -> In g (cd_gls (snd ac)) -> In (t_type (g_ev g)) taxable_types) ->
+  exists out, tax_report T i = Ok out.
+Proof.
+  intros H A R i acs HC HL HM HT. apply (tax_report_total T (tables_ok_good T H) A i acs HC HL HM).
+  intros ac g Hac Hg. destruct (routing_total_spec T R _ (HT ac g Hac Hg)) as [n Hn]. congruence.
+Qed.
+Lemma us_report_produced : forall i acs,
+  computed_all i (rp_assets i) = Ok acs ->
+  (exists m, legend_method (rp_sched i) = Ok m) ->
+  (forall ac, In ac acs -> exists items, mk_items tax_tables_us (asset_sources i ac) = Ok items) ->
+  (forall ac g, In ac acs -> In g (cd_gls (snd ac)) -> In (t_type (g_ev g)) taxable_types) ->
+  exists out, tax_report tax_tables_us i = Ok out.
+Proof. exact (report_produced_of_total tax_tables_us us_tables_ok us_append_ok us_routing_total). Qed.
+
+(** ---------- non-vacuity: concrete inputs meeting the hypotheses of the theorems above *)
+(** US, fifo, two assets sharing the Capital Gains sheet (the integers are what the harness sends):
+    AAA: IN row 3 2020-01-01 BUY 2 @ 100, OUT row 9 2021-03-01 SELL 1 @ 200
+    BBB: the same plus IN row 4 2021-02-01 INTEREST 0.5 @ 150
+    fractions as the implementation matched them: AAA 9<-3; BBB 4 (income), 9<-3 *)
+Definition ex2_code : list Z :=
+  [0; 365; 0; 2932896; 0; 1; 8; 67; 111; 105; 110; 98; 97; 115; 101; 1; 3; 66; 111; 98; 1; 1970; 0; 2; 3; 65; 65; 65; 1; 3; 1577836800000000; 0; 0; 0; 1; 10000000000000; 200000000000; 0; 0; 0; 0; 0; 0; 0; 0; 1; 9; 1614556800000000; 0; 0; 0; 11; 20000000000000; 100000000000; 0; 0; 0; 0; 0; 0; 0; 0; 1; 9; 1; 3; 100000000000; 3; 66; 66; 66; 2; 3; 1577836800000000; 0; 0; 0; 1; 10000000000000; 200000000000; 0; 0; 0; 0; 0; 0; 0; 0; 4; 1612137600000000; 0; 0; 0; 7; 15000000000000; 50000000000; 0; 0; 0; 0; 0; 0; 0; 0; 1; 9; 1614556800000000; 0; 0; 0; 11; 20000000000000; 100000000000; 0; 0; 0; 0; 0; 0; 0; 0; 2; 4; 0; 0; 50000000000; 9; 1; 3; 100000000000].
+
+Example ex2_report : exists i acs out,
+  rd_rinput ex2_code = Some (Ok i, []) /\ computed_all i (rp_assets i) = Ok acs /\ tax_report tax_tables_us i = Ok out
+  /\ map sw_name out = [s_Legend; n_capital_gains; n_interest]
+  /\ map (fun s => (rs_asset s, t_type (g_ev (rs_gl s)))) (all_sources i acs) = [([65; 65; 65], SELL); ([66; 66; 66], INTEREST); ([66; 66; 66], SELL)]
+  /\ exists s, In s out /\ sw_name s = n_capital_gains
+       /\ cell_at (sw_writes s) 7 1 = PStr [65; 65; 65] /\ cell_at (sw_writes s) 8 1 = PStr [66; 66; 66]
+       /\ cell_at (sw_writes s) 8 14 = PStr s_LONG /\ cell_at (sw_writes s) 9 1 = PEmpty
+       /\ sw_rows s = 102 + 22 + 22.
+Proof.
+  remember (rd_rinput ex2_code) as r eqn:E. vm_compute in E. subst r.
+  eexists. eexists. eexists. split; [reflexivity|]. split; [vm_compute; reflexivity|]. split; [vm_compute; reflexivity|].
+  split; [vm_compute; reflexivity|]. split; [vm_compute; reflexivity|].
+  eexists. split; [right; left; reflexivity|]. vm_compute. repeat split.
+Qed.
+
+(** the US tables with LOST taken off every sheet: the shape of the IE map before the repair *)
+Definition us_without_lost : trtables :=
+  let U := tax_tables_us in
+  {| tt_plugin := tt_plugin U; tt_sheet_names := tt_sheet_names U;
+     tt_sheet_to_types := map (fun st => (fst st, filter (fun t => negb (ttype_eqb t LOST)) (snd st))) (tt_sheet_to_types U);
+     tt_header_rows := tt_header_rows U; tt_min_rows := tt_min_rows U; tt_first_row := tt_first_row U; tt_empty_mark := tt_empty_mark U;
+     tt_row_step := tt_row_step U; tt_append_rows := tt_append_rows U; tt_cols_always := tt_cols_always U; tt_cols_lot := tt_cols_lot U;
+     tt_cols_nolot := tt_cols_nolot U; tt_datefmt := tt_datefmt U; tt_template_name := tt_template_name U; tt_output_file := tt_output_file U;
+     tt_template := tt_template U; tt_legend_method_row := tt_legend_method_row U |}.
+
+Example missing_type_nonvacuous : exists i acs,
+  rd_rinput f4_code = Some (Ok i, []) /\ computed_all i (rp_assets i) = Ok acs
+  /\ (exists src, In src (all_sources i acs) /\ type_to_sheet us_without_lost (t_type (g_ev (rs_gl src))) = None)
+  /\ tables_ok us_without_lost = true /\ routing_total us_without_lost = false
+  /\ tax_report us_without_lost i = Err EInternal.
+Proof.
+  remember (rd_rinput f4_code) as r eqn:E. vm_compute in E. subst r.
+  eexists. eexists. split; [reflexivity|]. split; [vm_compute; reflexivity|].
+  split; [eexists; split; [left; reflexivity | vm_compute; reflexivity]|].
+  split; [vm_compute; reflexivity|]. split; vm_compute; reflexivity.
+Qed.
+
 (** ---------- last on purpose: everything above is checked even when this fails *)
 (** holds only when every type that can be a taxable event has a sheet in the IE map: with LOST missing
     (finding F4) this proof does not compile *)
@@ -1229,3 +1292,10 @@ Lemma ie_routing_total : routing_total tax_tables_ie = true.
 Proof. vm_compute. reflexivity. Qed.
 Lemma ie_routing_documented : routing_as_documented tax_tables_ie.
 Proof. vm_compute. repeat split. Qed.
+Lemma ie_report_produced : forall i acs,
+  computed_all i (rp_assets i) = Ok acs ->
+  (exists m, legend_method (rp_sched i) = Ok m) ->
+  (forall ac, In ac acs -> exists items, mk_items tax_tables_ie (asset_sources i ac) = Ok items) ->
+  (forall ac g, In ac acs -> In g (cd_gls (snd ac)) -> In (t_type (g_ev g)) taxable_types) ->
+  exists out, tax_report tax_tables_ie i = Ok out.
+Proof. exact (report_produced_of_total tax_tables_ie ie_tables_ok ie_append_ok ie_routing_total). Qed.
